@@ -25,7 +25,8 @@ HEADLINE = ["connect_cases", "expected_reject", "expected_accept", "rejected_pai
 PATHS = [(), (0,), (1,), (0, 0), (0, 1), (1, 0)]
 SRC_ATTRS = {"p": "persistent", "e": "nonpersistent", "x": None}
 DST_ATTRS = {"t": "trigger", "n": "nontrigger", "x": None}
-CONNS = [("plain", {}), ("shift", {"shift": 1}), ("shift2", {"shift": 2, "shift_int": True}), ("weak", {"weak": True})]
+CONNS = [("plain", {}), ("shift", {"shift": 1}), ("shift2", {"shift": 2, "shift_int": True}), ("weak", {"weak": True}),
+         ("weak+shift", {"weak": True, "shift": 1}), ("weak+shift2", {"weak": True, "shift": 2, "shift_int": True})]
 
 
 def plan(tier, seed, scale):
@@ -51,7 +52,7 @@ def expected_problems(sa, da, ckind, has_init, p, q) -> List[str]:
         probs.append("destination attribute is not an input")
     if ckind != "plain" and DST_ATTRS[da] == "nontrigger" and not has_init:
         probs.append("shifted/weak into non-trigger input without initial data")
-    if ckind == "weak" and common(p, q) == 0:
+    if "weak" in ckind and common(p, q) == 0:
         probs.append("weak connection between simulators that share no group")
     return probs
 
@@ -76,10 +77,11 @@ def table_cases():
                             yield p, q, same_sim, sa, da, ckind, ckw, has_init
 
 
-def run_table_case(case, C: Counter, viol, do_run: bool, cache: bool = True, pre_connect: bool = False):
+def run_table_case(case, C: Counter, viol, do_run: bool, cache: bool = True, pre_connect: bool = False,
+                   pre_reverse: bool = False):
     p, q, same_sim, sa, da, ckind, ckw, has_init = case
     if same_sim:
-        pre_connect = False
+        pre_connect = pre_reverse = False
     if same_sim and ckind == "plain":
         return  # an unresolved self-cycle: C06's subject; connect() itself accepts it
     dst = "A" if same_sim else "B"
@@ -97,9 +99,19 @@ def run_table_case(case, C: Counter, viol, do_run: bool, cache: bool = True, pre
         scn["conns"] = [{"src": "A", "se": "e0", "sa": "e2", "dst": "B", "de": "e0", "da": "t2"}, conn]
         do_run = False
         C["sequence_cases"] += 1
+    if pre_reverse:
+        # before: an accepted plain connection in the OTHER direction (B -> A, other ports).  A connection under test
+        # that is refused must not leave anything behind that closes a cycle with it: the run still has to start.
+        for s_ in scn["sims"]:
+            s_["ins"]["t2"] = "trigger"
+            s_["outs"]["e2"] = "nonpersistent"
+        scn["conns"] = [{"src": "B", "se": "e0", "sa": "e2", "dst": "A", "de": "e0", "da": "t2"}, conn]
+        do_run = True
+        C["reverse_sequence_cases"] += 1
     probs = expected_problems(sa, da, ckind, has_init, p, q)
     desc = {"src_path": list(p), "dst_path": list(q), "same_simulator": same_sim, "src_attr": sa, "dst_attr": da,
-            "connection": ckind, "initial_data": has_init, "cache": cache, "after_an_accepted_connection": pre_connect}
+            "connection": ckind, "initial_data": has_init, "cache": cache, "after_an_accepted_connection": pre_connect,
+            "after_an_accepted_connection_in_the_other_direction": pre_reverse}
     C["connect_cases"] += 1
     C["cache_on" if cache else "cache_off"] += 1
     C["placements_" + placement_kind(p, q)] += 1
@@ -123,7 +135,7 @@ def run_table_case(case, C: Counter, viol, do_run: bool, cache: bool = True, pre
         else:
             C["accepted_pairs_run_not_ok"] += 1
         return
-    if not do_run:
+    if not do_run or pre_reverse:
         return
     if rejected and not same_sim:
         C["rejected_pairs_run"] += 1
@@ -210,7 +222,8 @@ DST_MODELS = [  # (simulator type, model description): the kind of an input come
     ("time-based", {"attrs": ["a", "b"]}),
 ]
 API_DST_ATTRS = ["a", "b", "t", "x"]
-API_CONNS = [("plain", {}), ("shift", {"time_shifted": True}), ("shift2", {"time_shifted": 2}), ("weak", {"weak": True})]
+API_CONNS = [("plain", {}), ("shift", {"time_shifted": True}), ("shift2", {"time_shifted": 2}), ("weak", {"weak": True}),
+             ("weak+shift", {"weak": True, "time_shifted": True})]
 
 
 def api_cases(C: Counter) -> List[dict]:
@@ -310,6 +323,9 @@ def run_slice(job: dict) -> dict:
         if (k // W) % 3 == 0:
             run_table_case(case, C, viol, do_run=False, cache=True, pre_connect=True)
             res["evaluations"] += 1
+        if (k // W) % 3 == 1:
+            run_table_case(case, C, viol, do_run=True, cache=bool((k // W) % 2), pre_reverse=True)
+            res["evaluations"] += 1
         res["evaluations"] += 1
         res["hashes"].add(H([list(case[0]), list(case[1])] + list(case[2:6]) + [case[7]]) % (1 << 52))
         if len(res["samples"]) < 1 and k % 1301 == 0:
@@ -366,7 +382,8 @@ def replay(rep: dict) -> List[dict]:
             kw["kind"] = kind
             out.append(kw)
         run_table_case(case, Counter(), viol, True, cache=d.get("cache", True),
-                       pre_connect=d.get("after_an_accepted_connection", False))
+                       pre_connect=d.get("after_an_accepted_connection", False),
+                       pre_reverse=d.get("after_an_accepted_connection_in_the_other_direction", False))
         return out
     if "hier_case" in r:
         return hier_cases(Counter())
@@ -404,7 +421,8 @@ def evidence(m, tier, seed):
                 "non-trigger, no input}) x {plain, shifted, shifted=2, weak} x initial data yes/no x every ordered "
                 "pair of 6 group paths (root, same, nested, sibling) plus self-connections, cache on and off, plus "
                 "child entities of another model (hierarchical create()), and the same connection after an accepted "
-                "connection between the same simulators (sequence of calls); (A2, counters api_*) the plain API against 10 destination "
+                "connection between the same simulators (sequence of calls), and after an accepted plain connection in the other direction "
+                "followed by a run (a refused connection must leave nothing behind that closes a cycle); (A2, counters api_*) the plain API against 10 destination "
                 "models whose input kinds come from type defaults and any_inputs (destination attributes listed nowhere), with "
                 "one initial_data dict object reused for two calls and one source attribute mapped to two destination "
                 "attributes in one call; real connect(), then a "
